@@ -307,3 +307,5 @@ func (s *Sim) Abandon(p *Pass) {
 	}
 	p.Pending = nil
 }
+
+func debugStack() []byte { return debug.Stack() }
